@@ -27,14 +27,14 @@ type c04PolyVec struct {
 
 // probe measurements at real-valued points (oracle in the harness)
 type probeObs struct {
-	So  []int   `json:"so"`  // oracle sign: -1 inside, 1 outside, 0 within 1e-6 of the boundary (ambiguous)
-	Sf  []int   `json:"sf"`  // Mesh2D sign class w.r.t. +-1e-9
-	Ss  []int   `json:"ss"`  // Mesh2DSlow
-	Ef  []int64 `json:"ef"`  // | |Mesh2D| - oracle distance | in 1e-12 units
-	Es  []int64 `json:"es"`  // | |Mesh2DSlow| - oracle distance |
-	Dfs []int64 `json:"dfs"` // | |Mesh2D| - |Mesh2DSlow| |
-	Lvl  []int  `json:"lvl"`  // p.y vs the vertex levels: 2 within 1e-9 of one but not equal, 1 equal to one, 0 neither
-	Kind []int  `json:"kind"` // 1 box corner, 2 split-line midpoint, 3 +-1ulp neighbour, 4 vertex level, 5 random, 6 vertex/edge point
+	So   []int   `json:"so"`   // oracle sign: -1 inside, 1 outside, 0 within 1e-6 of the boundary (ambiguous)
+	Sf   []int   `json:"sf"`   // Mesh2D sign class w.r.t. +-1e-9
+	Ss   []int   `json:"ss"`   // Mesh2DSlow
+	Ef   []int64 `json:"ef"`   // | |Mesh2D| - oracle distance | in 1e-12 units
+	Es   []int64 `json:"es"`   // | |Mesh2DSlow| - oracle distance |
+	Dfs  []int64 `json:"dfs"`  // | |Mesh2D| - |Mesh2DSlow| |
+	Lvl  []int   `json:"lvl"`  // p.y vs the vertex levels: 2 within 1e-9 of one but not equal, 1 equal to one, 0 neither
+	Kind []int   `json:"kind"` // 1 box corner, 2 split-line midpoint, 3 +-1ulp neighbour, 4 vertex level, 5 random, 6 vertex/edge point
 }
 
 type c04PolyObs struct {
@@ -45,16 +45,16 @@ type c04PolyObs struct {
 	Idx int      `json:"idx"`
 	NV  int      `json:"nv"`
 	// lattice points
-	Sf  []int   `json:"lsf"`
-	Ss  []int   `json:"lss"`
-	Sp  []int   `json:"lsp"`
-	Ef  []int64 `json:"lef"`
-	Es  []int64 `json:"les"`
-	Ep  []int64 `json:"lep"`
-	Dfs []int64 `json:"ldfs"`
-	Pr  probeObs `json:"pr"`
-	Boxes int    `json:"boxes"`
-	Snap  int    `json:"snap"` // vertices within 1e-9 of a quadtree box edge coordinate WITHOUT lying on it (snapping band)
+	Sf    []int    `json:"lsf"`
+	Ss    []int    `json:"lss"`
+	Sp    []int    `json:"lsp"`
+	Ef    []int64  `json:"lef"`
+	Es    []int64  `json:"les"`
+	Ep    []int64  `json:"lep"`
+	Dfs   []int64  `json:"ldfs"`
+	Pr    probeObs `json:"pr"`
+	Boxes int      `json:"boxes"`
+	Snap  int      `json:"snap"` // vertices within 1e-9 of a quadtree box edge coordinate WITHOUT lying on it (snapping band)
 	// report only
 	Desc string      `json:"desc,omitempty"`
 	P    [][]float64 `json:"p,omitempty"`
